@@ -1136,6 +1136,9 @@ def c03(ctx):
     # variable or by a run-time condition), a local shadowing a package-level variable across a run-time if
     cases += mpcl_cases(ctx, "mpcl-gen-f", "{3, 8}", 6, 2000 if thorough else 400, limit=6000 if thorough else 900,
                         kinds='{"cmp", "lit", "loop", "loopret", "nest", "shadow", "ifret"}')
+    # nested ifs and calls inside a branch, their results used afterwards (starved in the mixed runs)
+    cases += mpcl_cases(ctx, "mpcl-gen-i", "{3, 8}", 5, 1200 if thorough else 200, limit=4000 if thorough else 400,
+                        kinds='{"cmp", "ifnest", "logic"}')
     # expressions of two operators without parentheses (precedence, associativity) next to plain arithmetic
     cases += mpcl_cases(ctx, "mpcl-gen-h", "{3, 8}", 4, 1200 if thorough else 250, limit=4000 if thorough else 500,
                         kinds='{"expr3", "neg", "const"}')
